@@ -180,10 +180,10 @@ def can1(ctx, lib):
     canon = None
     for b in takers:
         segs = [ordertaint.last_seg(callee_name(t) or "") for _, t in b.calls()]
-        if "dedup" in segs and ("sort" in segs or "sort_unstable" in segs):
+        if any(x in segs for x in ("sort", "sort_unstable", "sort_by", "sort_unstable_by", "sort_by_key", "dedup")) and b.arg_count == 1:
             canon = b
     if canon is None:
-        ctx.anchor_lost(rid, "function taking &mut Vec<String> that sorts and dedups it")
+        ctx.anchor_lost(rid, "function taking only &mut Vec<String> that sorts / dedups it")
         return None
     fi = guards.FnInfo.of(canon)
     d = fi.defs
